@@ -222,10 +222,11 @@ def plan(tier):
         for i, pair in enumerate([[0, 15], [1, 4], [12, 3], [6, 9]]):
             wr("one_memword", f"write_strb{i}", [0], [F32, Z32], pair)
         wr("one_memword", "write_data3", [0, 4], [Z32, F32, A5], [15])
-        rw("one_memword", "readwrite2", [0], [Z32, F32], [5], [0, 4])
+        rw("one_memword", "readwrite2", [0], [F32], [5], [0, 4])
+        rw("one_memword", "readwrite3", [0], [Z32, F32], [5], [0])
         wr_pairs("one_memword", "wskew2", [0, 4], [(A5, 1), (C3, 6), (F32, 8)])
         wr("two_memwords", "write2", [0, 4, 8], [F32, Z32], [12])
-        rw("two_memwords", "readwrite", [0, 4], [F32], [5], [0, 4])
+        rw("two_memwords", "readwrite", [4], [F32], [5], [0, 4])
         wr("nested_file", "write", [0, 12, 4], [F32], [5])
         rd("nested_file", "read", [0, 12, 4, 8])
         rw("nested_file", "readwrite", [12], [F32], [5], [0, 12])
@@ -240,12 +241,19 @@ def plan(tier):
     return P
 
 
+# thorough-tier cases above 3*10^5 transitions: (product states, transitions) as measured once with the counting run
+BIG = {"axi_one_memword_wskew2": (9445, 453360), "axi_two_memwords_write2": (6623, 317904), "axi_array_top_write2": (6623, 317904),
+       "axi_array_in_file_write2": None,   # alarms on the unfixed tree; not measured
+       "axi_nested2_write2": (6405, 409920), "axi_fields_readwrite": (17129, 548128)}
+
+
 def run(ck: common.Check, replay=None):
     ck.check_props("C20_Properties.v")
     todo = plan(ck.tier)
     only = [s for s in os.environ.get("C20_ONLY", "").split(",") if s]
     if only:   # development aid: C20_ONLY=fields_write,nested2 runs the cases whose name contains one of the words
         todo = [t for t in todo if any(s in f"{t[0]}_{t[1]}" for s in only)]
+        ck.cov["restricted_to"] = only
     layouts = []
     for t in todo:
         if t[0] not in layouts:
@@ -291,9 +299,13 @@ def run(ck: common.Check, replay=None):
                                   "source": dsg["source"]}))
         ck.hist("phases", phase)
         ck.hist("layouts", name)
+    # the reachability checker runs twice in a case whose state count is printed (once for the count, once inside the
+    # proof); the largest cases are proved only (their measured sizes are listed in BIG)
+    cases.sort(key=lambda c: c.name in BIG)
+    n_counted = len([c for c in cases if c.name not in BIG])
     results = X.run_cases(ck, cases, "AXI4-Lite monitor flags on an input sequence (handshake, response count, decode, strobed/masked write, "
                            "read data, notification or hardware-side field update)",
-                key_of=lambda c: {"layout": c.meta["layout"], "phase": c.meta["phase"], "group": c.meta["phase"].rstrip("0123456789")}, count_first=len(cases), timeout=3300)
+                key_of=lambda c: {"layout": c.meta["layout"], "phase": c.meta["phase"], "group": c.meta["phase"].rstrip("0123456789")}, count_first=n_counted, timeout=3300)
     for c, status, info in results:
         # the alphabets are written in the order of INPUTS: the parsed design must list its inputs in that order
         if getattr(c, "design", None) is not None and list(c.design.inputs) != INPUTS:
@@ -301,7 +313,8 @@ def run(ck: common.Check, replay=None):
             ck.violation({"layout": c.meta["layout"], "phase": c.meta["phase"], "harness": "input order"},
                          "input ports of the compiled wrapper are not in the order the alphabet assumes",
                          {"inputs": list(c.design.inputs), "expected": INPUTS}, no_input=True)
-    ck.cov["cases"] = {c.name: (dict(states=info["states"], transitions=info["transitions"]) if status == "ok" else status)
+    ck.cov["cases"] = {c.name: ((dict(states=info["states"], transitions=info["transitions"]) if c.name not in BIG
+                                 else dict(proved_only=True, measured=BIG[c.name])) if status == "ok" else status)
                        for c, status, info in results}
     ck.cov["rule"] = ("one theorem per (register-map layout, phase); each covers all sequences over the phase's alphabet: all valid/ready "
                       "timings of the channels in the phase, the listed addresses (mapped and unmapped), data patterns and strobes")
